@@ -19,6 +19,58 @@ def cert_views(snap):
     return v, cq, tq
 
 
+def carried_commit_views(m):
+    """Views of the commit certificates a message carries (directly, or as a high_qc inside timeouts)."""
+    vs = []
+
+    def of_timeout(t):
+        if t.get("hq") is not None:
+            vs.append(int(t["hq"]["msg"]["v"]["n"]))
+    if "timeout" in m:
+        of_timeout(m["timeout"])
+    elif "proposal" in m or "new_view" in m:
+        j = (m.get("proposal") or m.get("new_view"))["j"]
+        if j is not None and "commit" in j:
+            vs.append(int(j["commit"]["msg"]["v"]["n"]))
+        elif j is not None:
+            for (tm, _s) in j["timeout"]["map"]:
+                of_timeout(tm)
+    return vs
+
+
+def local_rule_failures(i, op, ob, snap, cur):
+    """Replica-local rules of the specification that the safety and view-change theorems rest on, evaluated
+    on one accepted step of the implementation (never via the model):
+      * a commit certificate the replica was shown in an accepted message is retained: afterwards its high
+        commit certificate is at least as high;
+      * the commit vote it has just sent is recorded as its latest vote (high_vote);
+      * a timeout vote it sends reports exactly that recorded latest vote and its high commit certificate."""
+    bad = []
+    if ob[0] != [0] or op is None:
+        return bad
+    inner = op["op"] if op["t"] == "crash" else op
+    if inner.get("t") == "msg" and inner.get("sig_ok", True):
+        vs = carried_commit_views(inner["m"])
+        # a single timeout vote is only verified and counted; its high_qc is processed when the quorum forms
+        if vs and "timeout" not in inner["m"] and max(vs) > cur[1]:
+            bad.append({"step": i, "failed": f"accepted a message carrying a commit certificate for view {max(vs)} but the replica's high commit certificate afterwards is for view {cur[1]} (certificate shown to the replica is dropped)"})
+    hv = snap[2][0] if snap[2] else None
+    for e in ob[1][0]:
+        if e[0] != 1:
+            continue
+        m = e[1]
+        if m[0] == 1 and m[1] != hv:
+            bad.append({"step": i, "failed": f"sent the commit vote {m[1]} but recorded {hv} as its latest vote (high_vote must be the latest vote: a later timeout would report a stale vote)"})
+        if m[0] == 2:
+            thv = m[1][1][0] if m[1][1] else None
+            thq = int(m[1][2][0][0][2]) if m[1][2] else -1
+            if thv != hv:
+                bad.append({"step": i, "failed": f"timeout vote reports high_vote {thv} but the replica's latest vote is {hv}"})
+            if thq != cur[1]:
+                bad.append({"step": i, "failed": f"timeout vote reports a high commit certificate for view {thq} but the replica holds one for view {cur[1]}"})
+    return bad
+
+
 def predicates(case, out):
     bad = []
     prev = None
@@ -62,6 +114,7 @@ def predicates(case, out):
                         bad.append({"step": i, "failed": f"the step completed/received a certificate for view {want - 1} but the replica moved to view {cur[0]} (a view change must be to the successor of the certificate's view)"})
         if ob[0] and ob[0][0] == 1:
             bad.append({"step": i, "failed": "handler panicked"})
+        bad += local_rule_failures(i, op, ob, snap, cur)
         prev = cur
     for s in out.get("sent", []):
         if s["by_me"] and not (s["sig_ok"] and s["verifies"]):
@@ -200,10 +253,14 @@ def report(rep, prop, po, R, broken, what, extra_first=None):
 def run(rep):
     tier, rng = rep.tier, Rng(rep.seed)
     broken = []
-    po = common.proof_obligations(PROP_FILES)
-    po["files"] = PROP_FILES
+    # translator: ViewNumber/EpochNumber/BlockNumber next/prev regenerated from the source; Properties/C05Gen.v proves
+    # them equal to the model's num_next
+    import rust2coq
+    translator, gen_files = rust2coq.step(["numbers"], ["theories/Properties/C05Gen.v"], broken)
+    po = common.proof_obligations(PROP_FILES + gen_files)
+    po["files"] = PROP_FILES + gen_files
     if not po["ok"]:
-        broken.append("Coq obligations of Properties/C05.v: " + (po["log_tail"] or str(po["hygiene_problems"] or po["bad_axioms"])))
+        broken.append("Coq obligations of " + ",".join(po["files"]) + ": " + (po["log_tail"] or str(po["hygiene_problems"] or po["bad_axioms"])))
     R = run_replica_cases(rep, "C05", {"rounds": 6 if tier == "quick" else 10, "crash": False, "extreme": False},
                           int(os.environ.get("VERIF_C05_N") or (60 if tier == "quick" else 1200)), rng, broken)
     spec_ev = run_spec_cases(rep, R["cases"], R["pred_fail"])
@@ -221,6 +278,8 @@ def run(rep):
            extra_first=rl_first)
     rep.cov.update(rl_ev)
     rep.cov.update(spec_ev)
+    rep.cov["translator"] = translator
+    rep.cov["trusted_base"] = rep.cov["trusted_base"] + translator["trusted"]
     rep.cov["obligations"] += 1
     rep.cov["discharged"] += 0 if RL["mm"] else 1
     rep.cov["evaluations"] += RL["steps"]
